@@ -1055,6 +1055,169 @@ def _c12_case(xml, ev):
 
 
 # ---------------------------------------------------------------------------------------------
+# C13: concurrent producers (Queue.tla / TraceC13.tla)
+# ---------------------------------------------------------------------------------------------
+def run_scen_jobs(jobs, wd, name="scen", threads=4, timeout=1800):
+    import subprocess
+    for j in jobs:
+        d = os.path.join(wd, "scen%s" % j["id"])
+        os.makedirs(d, exist_ok=True)
+        j["dir"] = d
+    jf = os.path.join(wd, name + ".ndjson")
+    of = os.path.join(wd, name + ".out.ndjson")
+    with open(jf, "w") as f:
+        for j in jobs:
+            f.write(json.dumps(j) + "\n")
+    t0 = time.time()
+    p = subprocess.run(["timeout", str(timeout), vlib.VH, "scen", jf, of, str(threads)], stdout=subprocess.PIPE,
+                       stderr=subprocess.STDOUT, text=True)
+    if p.returncode != 0:
+        raise ToolError("vh scen failed rc=%d %s" % (p.returncode, p.stdout[-500:]))
+    res = {}
+    for line in open(of):
+        r = json.loads(line)
+        res[r["id"]] = r
+    log("[harness] scen: %d scenarios in %.1fs" % (len(jobs), time.time() - t0))
+    return res
+
+
+C13_CONSUMER = """<scxml xmlns="http://www.w3.org/2005/07/scxml" version="1.0" datamodel="rfsm-expression" name="consumer">
+<datamodel><data id="cnt" expr="0"/></datamodel>
+<state id="s">
+ <transition event="follow"><script>mark('E', _event.data.n)</script></transition>
+ <transition event="kick">%s<script>mark('B', _event.name)</script>
+   <send target="#_internal" event="follow"><param name="n" expr="_event.name"/></send></transition>
+ <transition event="*"><script>mark('B', _event.name)</script><assign location="cnt" expr="cnt + 1"/>
+   <send target="#_internal" event="follow"><param name="n" expr="_event.name"/></send></transition>
+</state></scxml>"""
+
+C13_PEER = """<scxml xmlns="http://www.w3.org/2005/07/scxml" version="1.0" datamodel="rfsm-expression" name="peer">
+<datamodel><data id="peer" expr="0"/></datamodel>
+<state id="w"><transition event="go">%s</transition></state></scxml>"""
+
+
+@check("C13")
+def c13(tier, seed):
+    t0 = time.time()
+    wd = vlib.workdir("C13")
+    V = vlib.Verdicts("C13")
+    vlib.build_harness()
+    mc = vlib.run_tlc("Queue", "Queue.cfg", wd, timeout=900)
+    mc["text"] = ""
+    rng = random.Random(seed)
+    jobs = []
+    meta = {}
+    nscen = 16 if tier == "quick" else 300
+    for si in range(nscen):
+        np_ = rng.choice([2, 3, 4, 8] if tier == "quick" else [2, 4, 8, 16])
+        m = rng.choice([20, 60, 150] if tier == "quick" else [100, 400, 1000])
+        timers = rng.randint(0, 12)
+        peer_n = rng.choice([0, 10, 40])
+        tsend = "".join('<send event="t.%d" delay="%dms"/>' % (k + 1, 3 * (k + 1)) for k in range(timers))
+        consumer = C13_CONSUMER % tsend
+        psend = "".join('<send event="b.%d" targetexpr="\'#_scxml_\' + peer"/>' % (k + 1) for k in range(peer_n))
+        sessions = [{"name": "A", "xml": consumer}]
+        steps = [{"start": "A"}]
+        prods = {}
+        groups = []
+        for pi in range(np_):
+            g = []
+            names = []
+            for k in range(m):
+                nm = "p%d.%d" % (pi + 1, k + 1)
+                names.append(nm)
+                g.append({"send": "A", "event": nm})
+                if rng.random() < 0.05:
+                    g.append({"sleep_us": rng.randint(1, 300)})
+            groups.append(g)
+            prods["p%d" % (pi + 1)] = names
+        kick = [{"send": "A", "event": "kick"}]
+        if timers:
+            prods["timer"] = ["t.%d" % (k + 1) for k in range(timers)]
+        prods["kick"] = ["kick"]
+        if peer_n:
+            sessions.append({"name": "B", "xml": C13_PEER % psend, "data": {}})
+            prods["peer"] = ["b.%d" % (k + 1) for k in range(peer_n)]
+        job = {"id": si + 1, "sessions": sessions, "steps": steps, "timeout_ms": 60000, "peer": peer_n}
+        jobs.append(job)
+        meta[si + 1] = (prods, groups, kick, peer_n)
+    # the session id of A is only known at run time: B learns it from an event parameter
+    for j in jobs:
+        prods, groups, kick, peer_n = meta[j["id"]]
+        st = j["steps"]
+        if peer_n:
+            st.append({"start": "B"})
+        st.append({"settle": 20})
+        st.append({"threads": groups + [kick] + ([[{"send": "B", "event": {"name": "go"}}]] if peer_n else [])})
+        st.append({"settle": 120})
+    # B needs A's session id: sessions are started in order A, B -> ids are consecutive; B is told through its <data>
+    results = {}
+    # run scenarios one by one for those with a peer (session ids), in parallel otherwise
+    res = run_scen_jobs_with_peer(jobs, wd)
+    runs = []
+    for j in jobs:
+        r = res.get(j["id"], {})
+        prods, groups, kick, peer_n = meta[j["id"]]
+        if r.get("errors"):
+            raise ToolError("C13 scenario error: %s" % r["errors"])
+        a_idx = [n for n in r["names"] if n[0] == "A"][0][1]
+        recs = [x[:-1] for x in r["sessions"][a_idx]["recs"]]
+        seq = []
+        for x in recs:
+            if x[0] == "XR" and x[1]["name"] != "error.platform.cancel":
+                seq.append(["X", x[1]["name"]])
+            elif x[0] == "M" and x[1] in ("B", "E"):
+                seq.append([x[1], tracelib.val_str(x[2][0]) if x[2] else ""])
+        runs.append({"prods": prods, "seq": seq, "jid": j["id"], "panic": bool(r.get("panics")), "stall": bool(r.get("stalls"))})
+    with open(os.path.join(wd, "traces.ndjson"), "w") as f:
+        for r in runs:
+            f.write(json.dumps({"prods": [v for k, v in sorted(r["prods"].items())], "seq": r["seq"]}) + "\n")
+    tv = vlib.run_tlc("TraceC13", "TraceC13.cfg", wd, env={"TRACES": "traces.ndjson"}, timeout=1500)
+    acc = len(vlib.tlc_tuples(tv["text"], "ACCEPT"))
+    for t in vlib.tlc_tuples(tv["text"], "REJECT"):
+        v = vlib.parse_tla_value(t)
+        run = runs[v[1] - 1]
+        V.report("%s" % v[2], "scenario %d: %s (producers %s, %d events consumed)" % (
+            run["jid"], v[2], {k: len(x) for k, x in run["prods"].items()}, sum(1 for e in run["seq"] if e[0] == "X")),
+                 {"class": v[2], "producers": {k: len(x) for k, x in run["prods"].items()}, "consumed_head": run["seq"][:60]})
+    tv["text"] = ""
+    for run in runs:
+        if run["panic"] or run["stall"]:
+            V.report("session-%s" % ("panic" if run["panic"] else "stall"), "scenario %d" % run["jid"], {})
+    if acc == 0 and not V.violations:
+        raise ToolError("C13: nothing accepted")
+    rc = V.finish()
+    total = sum(sum(len(x) for x in r["prods"].values()) for r in runs)
+    cov = {"states": mc["distinct"] + tv["distinct"], "transitions": mc["states"] + tv["states"],
+           "traces_validated_against_impl": acc,
+           "samples": [{"producers": {k: len(x) for k, x in runs[0]["prods"].items()}, "consumed_head": runs[0]["seq"][:12]}],
+           "evaluations": len(runs), "distinct_nontrivial": sum(1 for r in runs if len(r["prods"]) >= 3),
+           "events_total": total,
+           "rule": "Queue.tla model-checked (3 producers x 2 events, macrosteps of 2 microsteps: PerSenderOrder, NoLossNoDup, NoOverlap, "
+                   "AllConsumed); %d recorded runs with 2-16 host producer threads, a timer producer (delayed sends) and a second session "
+                   "sending by session id, validated by TraceC13.tla; non-trivial = runs with >= 3 producers" % len(runs)}
+    vlib.write_evidence("C13", tier, seed, "model_checking", cov, time.time() - t0, len(V.violations),
+                        ["the real scheduler is steered by jitter only; exhaustive interleavings are explored in the model",
+                         "producer order is the program order of each producer thread / the due-time order of the timer sends"])
+    return rc
+
+
+def run_scen_jobs_with_peer(jobs, wd):
+    """the peer session needs the consumer's session id: it is passed as <data id="peer"> using the id the harness
+    process will assign (ids are consecutive per process, so scenarios with a peer run one per process)"""
+    plain = [j for j in jobs if not j.get("peer")]
+    res = run_scen_jobs(plain, wd, name="scen-plain") if plain else {}
+    for j in jobs:
+        if j.get("peer"):
+            # first session started in a fresh process gets id 1
+            for sdef in j["sessions"]:
+                if sdef["name"] == "B":
+                    sdef["data"] = {"peer": 1}
+            res.update(run_scen_jobs([j], wd, name="scen-%s" % j["id"], threads=1))
+    return res
+
+
+# ---------------------------------------------------------------------------------------------
 # C10 / C11: Expr.tla as generator + oracle, the engine evaluated in `vh expr`
 # ---------------------------------------------------------------------------------------------
 OPERANDS = ["0", "1", "2", "3", "7", "10", "-1", "-4", "2.5", "0.5", "1.0", "-1.5", "'a'", "'b'", "'ab'", "''", "true",
